@@ -518,6 +518,8 @@ class Prims:
         return {ast.Eq: o.eq, ast.NotEq: o.ne, ast.Lt: o.lt, ast.LtE: o.le, ast.Gt: o.gt, ast.GtE: o.ge}[type(op)](a, b)
 
     def contains(self, ex, st, container, item):
+        if isinstance(container, ModRef) and container.path in getattr(self, "constants", {}):
+            container = self.constants[container.path]  # a module-level constant table of another repository module, read from its source
         if isinstance(container, SSeq):
             return seq_member(ex, container)(to_z3(item))
         if isinstance(container, (list, tuple, set, dict)):
@@ -682,6 +684,8 @@ class Prims:
         return z3.If(i < 0, i + n, i)
 
     def getitem(self, ex, st, base, idx, node):
+        if isinstance(base, ModRef) and base.path in getattr(self, "constants", {}):
+            base = self.constants[base.path]
         if hasattr(base, "pyvc_getitem"):
             return base.pyvc_getitem(ex, st, idx, node, self)
         if isinstance(base, SSeq):
